@@ -161,6 +161,21 @@ pub fn check(s: &'static dyn Proto, c: &Case, st: &mut Stats, _k: &KnownFindings
         let valid_sk = fieldmap::slice(&m, Ty::ServerSetup, "server_s_sk", &setup_nat).to_vec();
         let valid_pk = s.setup_public_key(setup);
         let mut used = 0u64;
+        // valid values of the same kind that occur at OTHER positions of the same run (a message
+        // whose ephemeral key equals somebody's static key, a state holding another secret key, an
+        // evaluation equal to the request, ...): perfectly well-formed, but chosen by the peer
+        let mut elsewhere: Vec<(fieldmap::FieldKind, String, Vec<u8>)> = Vec::new();
+        for ty in DECODERS11 {
+            let nat = s.ser(Codec::Native, samples.get(ty));
+            for f in fieldmap::fields(&m, ty) {
+                if f.kind.is_group_elem() || f.kind.is_scalar() {
+                    let v = nat[f.off..f.off + f.len].to_vec();
+                    if !elsewhere.iter().any(|(k, _, x)| *k == f.kind && *x == v) {
+                        elsewhere.push((f.kind, format!("value of {}.{}", ty.name(), f.name), v));
+                    }
+                }
+            }
+        }
         for ty in ALL_TYS {
             let native = if DECODERS11.contains(&ty) {
                 s.ser(Codec::Native, samples.get(ty))
@@ -174,7 +189,13 @@ pub fn check(s: &'static dyn Proto, c: &Case, st: &mut Stats, _k: &KnownFindings
                     continue;
                 }
                 let cur = native[f.off..f.off + f.len].to_vec();
-                for (class, bad) in decoders::invalid_encodings(&m, &f, &cur, &mut r, 2) {
+                let mut table = decoders::invalid_encodings(&m, &f, &cur, &mut r, 2);
+                for (k, name, v) in &elsewhere {
+                    if *k == f.kind && v.len() == f.len && *v != cur {
+                        table.push((name.clone(), v.clone()));
+                    }
+                }
+                for (class, bad) in table {
                     let mutated = fieldmap::splice(&native, &f, &bad);
                     let what = format!("{}::deserialize(field {} := {class})", ty.name(), f.name);
                     let obj = call(&what, || s.de(Codec::Native, ty, &mutated).ok())?;
@@ -513,7 +534,7 @@ pub const BUDGET: Budget = Budget {
 pub fn run(cfg: &RunCfg) -> (Outcome, EvidenceExtra) {
     let out = run_property(cfg, "C12", crate::suites::suites20(), BUDGET, |s| strategy(cfg, s), check);
     let ev = EvidenceExtra {
-        rule: "per generated case and suite: (a) arbitrary byte strings (0..1200 bytes, and lengths around the valid one) and (b) mutants of valid encodings (1-3 bit flips, truncation, extension, chunks spliced in from other messages) to the native, bincode and JSON decoders of all 11 types and of PublicKey/PrivateKey/KeyPair; (b2) every group-element/scalar field of every type replaced by each entry of the invalid-encoding table (identity, zero, order, out-of-range, small order, non-canonical) and, if a decoder accepts it, the value is re-serialised through all codecs and fed to the step that consumes it, plus the raw key API on the same bytes; (c) every protocol step (ServerRegistration::start, ClientRegistration::finish, ServerRegistration::finish, ServerLogin::start with and without record, ClientLogin::finish, ServerLogin::finish) fed well-formed values from two unrelated runs/servers/passwords in all combinations; (d) each of password, credential id, client identity, server identity, context set to lengths {0,1,255,256,65535} and one of {65536,65537,131072} with the others fixed. Every call runs under catch_unwind: a panic is a violation. (d) also asserts: in-range lengths complete registration and login with equal keys; over-limit password/identity/context never complete (credential ids of any length work). evaluation = one call; non-trivial = accepted mutants, cross-session deliveries and over-limit runs".into(),
+        rule: "per generated case and suite: (a) arbitrary byte strings (0..1200 bytes, and lengths around the valid one) and (b) mutants of valid encodings (1-3 bit flips, truncation, extension, chunks spliced in from other messages) to the native, bincode and JSON decoders of all 11 types and of PublicKey/PrivateKey/KeyPair; (b2) every group-element/scalar field of every type replaced by each entry of the invalid-encoding table (identity, zero, order, out-of-range, small order, non-canonical) and by every valid value of the same kind found at another position of the same run (e.g. an ephemeral key equal to a static key) and, if a decoder accepts it, the value is re-serialised through all codecs and fed to the step that consumes it, plus the raw key API on the same bytes; (c) every protocol step (ServerRegistration::start, ClientRegistration::finish, ServerRegistration::finish, ServerLogin::start with and without record, ClientLogin::finish, ServerLogin::finish) fed well-formed values from two unrelated runs/servers/passwords in all combinations; (d) each of password, credential id, client identity, server identity, context set to lengths {0,1,255,256,65535} and one of {65536,65537,131072} with the others fixed. Every call runs under catch_unwind: a panic is a violation. (d) also asserts: in-range lengths complete registration and login with equal keys; over-limit password/identity/context never complete (credential ids of any length work). evaluation = one call; non-trivial = accepted mutants, cross-session deliveries and over-limit runs".into(),
         assumptions: vec!["non-termination is caught by the watchdog and reported as inconclusive (exit 2)".into()],
         exhaustive: None,
         extra: Default::default(),
